@@ -80,6 +80,12 @@ type scen struct {
 	Workers  int       `json:"workers"`
 	Bound    int       `json:"bound"`
 	Prefix   []int     `json:"schedule_prefix,omitempty"`
+	// Then: after the (failing) renders one more render of the same sink follows that has nothing to fail on;
+	// it must return too (a failed render must not leave a lock or a worker behind that blocks the next one)
+	Then bool `json:"then_a_working_render,omitempty"`
+	// Mixed: the consecutive renders alternate between a coarse lattice (one evaluation batch per layer) and a
+	// fine one (two batches per layer)
+	Mixed bool `json:"alternating_resolutions,omitempty"`
 }
 
 var work = filepath.Join(vlib.VerifDir, ".work", "c12")
@@ -125,6 +131,9 @@ func (sc scen) body() func() {
 				r3 = scripted3{sc.Items}
 			case "uniform":
 				r3, s3 = render.NewMarchingCubesUniform(1), field()
+				if sc.Mixed && k%2 == 1 {
+					r3, s3 = render.NewMarchingCubesUniform(10), fineField()
+				}
 			case "octree":
 				r3, s3 = render.NewMarchingCubesOctree(2), field()
 			}
@@ -151,7 +160,27 @@ func (sc scen) body() func() {
 				render.ToDXF(s2, sc.Path, r2)
 			}
 		}
+		if sc.Then {
+			vos.Reset(&vos.Plan{Limit: -1, Fired: map[string]int{}})
+			ok := filepath.Join(work, fmt.Sprintf("then-%d", os.Getpid()))
+			switch sc.Sink {
+			case "stl":
+				render.ToSTL(dummy3{}, "then.stl", scripted3{3})
+			case "3mf":
+				render.To3MF(dummy3{}, ok+".3mf", scripted3{3})
+			case "svg":
+				render.ToSVG(dummy2{}, "then.svg", scripted2{3})
+			case "dxf":
+				render.ToDXF(dummy2{}, ok+".dxf", scripted2{3})
+			}
+		}
 	}
+}
+
+// fineField: a thin slab of the sphere's box, 12 x 12 lattice points per layer at 10 cells (two batches of 100)
+func fineField() sdf.SDF3 {
+	s, _ := sdf.Sphere3D(1)
+	return boxed{s, sdf.Box3{Min: v3.Vec{X: -0.15, Y: -1.5, Z: -1.5}, Max: v3.Vec{X: 0.15, Y: 1.5, Z: 1.5}}}
 }
 
 func planName(p *vos.Plan) string {
@@ -260,10 +289,47 @@ func main() {
 			scens = append(scens, scen{Sink: "stl", Renderer: rn, Renders: 1, Plan: p, Workers: 2, Bound: 2})
 		}
 	}
+	// a failing render followed by a working one
+	for _, m := range []int{1, 300} {
+		for _, p := range []*vos.Plan{{Limit: -1, FailCreate: true}, {Limit: 0}, {Limit: 84}, {Limit: 4096}, {Limit: -1, FailSeek: true}, {Limit: -1, FailAfterSeek: true}, {Limit: -1, FailClose: true}} {
+			scens = append(scens, scen{Sink: "stl", Renderer: "scripted", Items: m, Renders: 1, Plan: p, Workers: 2, Bound: -1, Then: true})
+		}
+		for _, p := range []*vos.Plan{{Limit: -1, FailCreate: true}, {Limit: 10}} {
+			scens = append(scens, scen{Sink: "svg", Renderer: "scripted", Items: m, Renders: 1, Plan: p, Workers: 2, Bound: -1, Then: true})
+		}
+		for _, path := range []string{filepath.Join(work, "no-such-dir", "y"), "/dev/full"} {
+			scens = append(scens, scen{Sink: "3mf", Renderer: "scripted", Items: m, Renders: 1, Plan: none(), Path: path + ".3mf", Workers: 2, Bound: -1, Then: true},
+				scen{Sink: "dxf", Renderer: "scripted", Items: m, Renders: 1, Plan: none(), Path: path + ".dxf", Workers: 2, Bound: -1, Then: true})
+		}
+	}
+	// census over alternating resolutions: coarse, fine, coarse, fine, ... (k = 2, 4, 6 renders = 1, 2, 3 periods)
+	for _, w := range []int{1, 2, 3} {
+		for _, k := range []int{2, 4, 6} {
+			scens = append(scens, scen{Sink: "triangles", Renderer: "uniform", Renders: k, Plan: none(), Workers: w, Bound: 0, Mixed: true})
+		}
+	}
 	census := map[string]map[int]int64{}
 	m := c.RunSharded(len(scens), func(i int, j *vlib.Job) {
 		sc := scens[i]
 		maxLeak := int64(-1)
+		if sc.Mixed {
+			// the census over alternating resolutions counts parked workers, which does not depend on the
+			// schedule; it is taken under two opposite scheduling policies instead of an exploration
+			for pi, pol := range []func(n int, cur bool) int{func(int, bool) int { return 0 }, func(n int, _ bool) int { return n - 1 }} {
+				x := vsync.RunPolicy(pol, sc.body())
+				if x.Deadlock || len(x.Faults) > 0 {
+					j.Violation("Totriangles|fault|alternating-resolutions", fmt.Sprintf("uniform renderer, alternating resolutions, policy %d: %v", pi, x.Faults), sc)
+				}
+				if int64(x.Leaked) > maxLeak {
+					maxLeak = int64(x.Leaked)
+				}
+				j.States++
+				j.Transitions += int64(x.Steps)
+			}
+			j.Count(fmt.Sprintf("census-mixed|w=%d|k=%d", sc.Workers, sc.Renders), maxLeak+1)
+			j.Count("executions", 2)
+			return
+		}
 		st := vsync.ExploreAll(vsync.Options{Bound: sc.Bound, Stop: c.Expired, MaxExec: 50000, Prune: true, SymmetricSpawn: []string{"render.evalRoutines"}}, sc.body(), func(x *vsync.Execution, prefix []int) bool {
 			rep := func() scen {
 				r := sc
@@ -303,7 +369,11 @@ func main() {
 		}
 		j.Count("executions-with-choice", st.WithChoice)
 		j.Count("distinct-traces", int64(len(st.Distinct)))
-		j.Count(fmt.Sprintf("census|%s|%s|w=%d|plan=%s|k=%d", sc.Sink, sc.Renderer, sc.Workers, planName(sc.Plan), sc.Renders), maxLeak+1)
+		if sc.Mixed {
+			j.Count(fmt.Sprintf("census-mixed|w=%d|k=%d", sc.Workers, sc.Renders), maxLeak+1)
+		} else if !sc.Then {
+			j.Count(fmt.Sprintf("census|%s|%s|w=%d|plan=%s|k=%d", sc.Sink, sc.Renderer, sc.Workers, planName(sc.Plan), sc.Renders), maxLeak+1)
+		}
 		if st.Capped {
 			j.Capped = true
 		}
@@ -342,6 +412,25 @@ func main() {
 				c.Note("census %s %s w=%d: parked after 1..4 renders: %v", sink, rn, w, l[1:])
 			}
 		}
+	}
+	for _, w := range []int{1, 2, 3} {
+		var l [7]int64
+		ok := true
+		for _, k := range []int{2, 4, 6} {
+			v, found := m.Counters[fmt.Sprintf("census-mixed|w=%d|k=%d", w, k)]
+			if !found {
+				ok = false
+			}
+			l[k] = v - 1
+		}
+		if !ok {
+			continue
+		}
+		if l[4] > l[2] || l[6] > l[2] {
+			c.Violation("uniform|goroutines-grow-per-render|alternating-resolutions", fmt.Sprintf("uniform renderer, %d workers, renders alternating between a coarse and a fine lattice: %d, %d, %d goroutines left parked after 2, 4, 6 renders", w, l[2], l[4], l[6]),
+				map[string]any{"renderer": "uniform", "workers": w, "alternating_resolutions": true, "parked_after_2_4_6_renders": []int64{l[2], l[4], l[6]}})
+		}
+		c.Note("census uniform w=%d alternating coarse/fine: parked after 2, 4, 6 renders: %v", w, []int64{l[2], l[4], l[6]})
 	}
 	for _, f := range []string{"create", "limit", "seek", "write-after-seek", "close"} {
 		c.Guard("fault point fired: "+f, m.Counters["fired:"+f] > 0, fmt.Sprint(m.Counters["fired:"+f]))
